@@ -29,8 +29,16 @@ fn hot_first_touch(ctx: &mut Ctx) {
                      els: Some(vec![Node::Capture("_".into(), vec![Node::For { x: "i".into(), rng: RangeE::Counted(lit_i(1), lit_i(3000)), limit: None, offset: None, rev: false, body: vec![out(var("i"))], els: None }])]), elsif: false },
         text("x"),
     ];
-    let partials: Vec<PartialDef> = vec![("big".into(), Ok(big)), ("rec".into(), Ok(rec)), ("broken".into(), Err(format!("{}{{% if %}}", "{{ 1 }}".repeat(4000))))];
+    let partials: Vec<PartialDef> = vec![
+        ("big".into(), Ok(big)), ("rec".into(), Ok(rec)), ("broken".into(), Err(format!("{}{{% if %}}", "{{ 1 }}".repeat(4000)))),
+        // two different partials whose names differ by the suffix `render` falls back to
+        ("card".into(), Ok(vec![text("[bare "), out(var("n")), text("]")])),
+        ("card.liquid".into(), Ok(vec![text("[suffixed "), out(var("n")), text("]")])),
+    ];
     let templates: Vec<Vec<Node>> = vec![
+        vec![Node::Render(lit_s("card"), RForm::Plain, vec![("n".into(), lit_i(1))])],
+        vec![Node::Render(lit_s("card.liquid"), RForm::Plain, vec![("n".into(), lit_i(2))])],
+        vec![Node::Include(lit_s("card.liquid"), vec![("n".into(), lit_i(3))]), Node::Include(lit_s("card"), vec![("n".into(), lit_i(4))])],
         vec![text("a"), Node::Include(lit_s("big"), vec![]), Node::Render(lit_s("big"), RForm::Plain, vec![])],
         vec![Node::Render(lit_s("big"), RForm::Plain, vec![]), text("b")],
         vec![text("c"), Node::Include(lit_s("broken"), vec![])],
